@@ -10,11 +10,11 @@ cd "$wt"
 if ! git apply --check "$src/patch.diff" 2>/dev/null; then
   if ! git apply --3way "$src/patch.diff" 2>/dev/null; then echo "$id: PATCH-DOES-NOT-APPLY"; cleanup; exit 3; fi
 else git apply "$src/patch.diff"; fi
-git diff > /tmp/wtc/$id.patch
+git diff HEAD > /tmp/wtc/$id.patch
 suite=$(PYTHONPATH=$wt/src timeout 900 /venv/bin/python -m pytest -q -p no:cacheprovider --timeout=900 2>&1 | tail -1)
 imp=$(PYTHONPATH=$wt/src /venv/bin/python -c "import halmos; print(halmos.__file__)" 2>/dev/null)
 PYTHONPATH=$wt/src timeout 900 /venv/bin/python "$src/demo.py" > /tmp/wtc/$id.changed.log 2>&1; rc_changed=$?
-git checkout -q -- . ; git clean -fdq
+git reset -q --hard; git clean -fdq
 PYTHONPATH=$wt/src timeout 900 /venv/bin/python "$src/demo.py" > /tmp/wtc/$id.clean.log 2>&1; rc_clean=$?
 cleanup
 ok=no
